@@ -22,7 +22,17 @@ import z3
 Fr = fractions.Fraction
 
 
+class SplitNeeded(RuntimeError):
+    """a value-dependent branch met outside any Explorer: the harness re-runs the case once per outcome, with the
+    outcome added to every obligation's hypotheses (St.split_assume)"""
+
+    def __init__(self, cond):
+        RuntimeError.__init__(self, "symbolic branch outside an Explorer: %s" % cond)
+        self.cond = cond
+
+
 class St:
+    split_assume = []
     """Engine state (one per process)."""
     mode = "REAL"
     explorer = None
@@ -215,7 +225,15 @@ class SymBool:
                 return True
             if s.check(self.e) == z3.unsat:
                 return False
-            raise RuntimeError("symbolic branch outside an Explorer: %s" % self.e)
+            A = list(getattr(St, "split_assume", ()))
+            if A:
+                # the harness is re-running this case under assumed outcomes of earlier value-dependent branches
+                s.add(A)
+                if s.check(z3.Not(self.e)) == z3.unsat:
+                    return True
+                if s.check(self.e) == z3.unsat:
+                    return False
+            raise SplitNeeded(self.e)
         return ex.branch(self.e)
 
     def __and__(self, o):
